@@ -96,13 +96,18 @@ func (m *midElement) ReleaseMessage(cc *Conn) {
 	}
 }
 
-func (m *midElement) IsExpired(now time.Time, maxRetransmit uint32) bool {
+func (m *midElement) IsExpired(now time.Time, maxRetransmit uint32, acknowledgeTimeout time.Duration) bool {
 	if !m.deadline.IsZero() && now.After(m.deadline) {
 		// remove element if deadline is exceeded
 		return true
 	}
 	retransmit := m.retransmit.Load()
-	return retransmit >= maxRetransmit
+	if retransmit < maxRetransmit {
+		return false
+	}
+	// the last transmission gets its acknowledge timeout as well: it is not given up at the very next
+	// housekeeping tick (with maxRetransmit 0 that was the first tick after the message went out)
+	return now.After(m.start.Add(acknowledgeTimeout * time.Duration(retransmit+1)))
 }
 
 func (m *midElement) Retransmit(now time.Time, acknowledgeTimeout time.Duration) bool {
@@ -1010,7 +1015,7 @@ func (cc *Conn) Done() <-chan struct{} {
 }
 
 func (cc *Conn) checkMidHandlerContainer(now time.Time, maxRetransmit uint32, acknowledgeTimeout time.Duration, key int32, value *midElement) {
-	if value.IsExpired(now, maxRetransmit) {
+	if value.IsExpired(now, maxRetransmit, acknowledgeTimeout) {
 		cc.midHandlerContainer.Delete(key)
 		value.ReleaseMessage(cc)
 		cc.errors(fmt.Errorf(errFmtWriteRequest, context.DeadlineExceeded))
